@@ -81,17 +81,19 @@ func init() {
 		out += fmt.Sprintf("def versionOff : Nat := %d\n", ans.Pairs[0][1])
 		out += fmt.Sprintf("def typeflag : Nat := %d\n", ans.TypeflagOff[0])
 		out += fmt.Sprintf("def sizeOff : Nat := %d\n", ans.SizePos[0])
-		// names in the snapshot's order; an accepted magic beyond them gets a name no theorem knows
+		// names in the snapshot's order — only when there are exactly as many accepted magics of each kind as the
+		// snapshot names; otherwise none gets a name a theorem knows (an extra accepted magic must not go unnoticed)
+		asSnap := len(ans.Magics6) == len(rxSnapTarMagic6) && len(ans.Magics8) == len(rxSnapTarMagic8) && len(ans.Magics6Any) == 0
 		for i, m := range ans.Magics6 {
-			name := fmt.Sprintf("magicExtra6_%d", i)
-			if i < len(rxSnapTarMagic6) {
+			name := fmt.Sprintf("magicWithVersion_%d", i)
+			if asSnap {
 				name = rxSnapTarMagic6[i]
 			}
 			out += fmt.Sprintf("def %s : List UInt8 := %s\n", name, leanByteList(unhex(m)))
 		}
 		for i, m := range ans.Magics8 {
-			name := fmt.Sprintf("magicExtra8_%d", i)
-			if i < len(rxSnapTarMagic8) {
+			name := fmt.Sprintf("magicOverVersion_%d", i)
+			if asSnap {
 				name = rxSnapTarMagic8[i]
 			}
 			out += fmt.Sprintf("def %s : List UInt8 := %s\n", name, leanByteList(unhex(m)))
